@@ -80,6 +80,8 @@ def generate(ck):
     descs = []
     for i in range(n):
         rows = int(rng.integers(60, 201))
+        if i % 7 == 2:
+            rows = int(rng.integers(2600, 3300))  # eight to nine years of daily records
         descs.append(
             {
                 "rows": rows,
@@ -87,12 +89,12 @@ def generate(ck):
                 "M": float(10.0 ** rng.uniform(2, 5)),
                 "p_i": float(rng.uniform(5000, 9000)),
                 "levels": [float(v) for v in np.sort(rng.uniform(500, 4500, 3))[::-1]],
-                "noise": float(rng.choice([0.0, 20.0])),
+                "noise": float(rng.choice([0.0, 20.0])) if rows < 1000 else 0.0,  # (late in a long, depleted record pressure noise would make daily volumes negative)
                 "n_zero": int(rng.integers(0, 6)),
                 "n_nan": int(rng.integers(0, 5)),
                 "filter": bool(i % 3 != 0),
                 "window": [None, 1, 3, 5, 9][i % 5],
-                "n_iter": int(rng.integers(3, 41)),
+                "n_iter": int(rng.integers(3, 41)) if rows < 1000 else 3,
                 "imax": float(rng.choice([10000.0, 12000.0])),
                 "inplace_factor": float(rng.choice([1.02, 3.0, 50.0])),
                 "seed": int(rng.integers(0, 2**31)),
@@ -199,7 +201,7 @@ def run_case(ck, desc):
     snap = instrument.snapshot(prod)
     OBJ.clear()
     NODES.clear()
-    inplace_max = float(np.nansum(gas_obs)) * desc["inplace_factor"]
+    inplace_max = float(np.nansum(np.where(gas_obs > 0, gas_obs, 0.0))) * desc["inplace_factor"]
     # the caller's first guess of the initial pressure: usually above the frac-face pressures, but a
     # third of the time BELOW the highest one (a choked-back start-up): the declared lower limit is
     # the highest frac-face pressure regardless
